@@ -430,6 +430,12 @@ def rule_E4_vis(text, kind, in_trait_impl, log):
             parts.append(inner[last:])
             parts = [(" pub " + x.strip() if x.strip() and not x.strip().startswith("pub") else x) for x in parts]
             text = text[:p + 1] + ",".join(parts).strip() + text[e:]
+    if kind in ("struct", "enum", "const", "static", "type", "trait"):
+        m = mask(text)
+        k = _first_code_pos(text, m)
+        if not m[k:].startswith("pub"):
+            text = text[:k] + "pub " + text[k:]
+            log.append(f"E4 {kind} made pub")
     elif kind == "fn" and not in_trait_impl:
         mt = re.match(r"((?:\s*#\[[^\]]*\]\s*)*)(\s*)(pub\b)?", text)
         # add pub if missing (inherent methods / free functions)
